@@ -115,6 +115,12 @@ func corpusMain(stream string) {
 			{Name: "Extra", BasePath: &x, Methods: []*j5sgen.Method{{Name: "More", Verb: "put", Path: "/more"}}}}
 		e.Summaries = []*j5sgen.Summary{{Props: []*j5sgen.Prop{prop("name", fld(j5sgen.FString))}}, {Name: "Brief", Props: []*j5sgen.Prop{prop("nm", fld(j5sgen.FString))}}}
 		fmt.Println(compileOpLine("entity", onePkg("foo.v1", j5sFile("foo/v1/e.j5s", entityEl(e))), "foo.v1", ""))
+		// a status written with the entity's status prefix, used as default status filter (findStatus must not
+		// prefix it a second time)
+		ep := simpleEntity("Foo")
+		ep.Statuses = []string{"FOO_STATUS_ACTIVE", "DONE"}
+		ep.Query = &j5sgen.Query{Filters: []string{"FOO_STATUS_ACTIVE", "DONE"}}
+		fmt.Println(compileOpLine("entity", onePkg("foo.v1", j5sFile("foo/v1/e.j5s", entityEl(ep))), "foo.v1", ""))
 	case "total":
 		// inputs outside the language that must be rejected (b6c593a, cf01603)
 		for _, nc := range negCases {
